@@ -131,7 +131,6 @@ func (e *Exec) schedule() bool {
 	if curEnabled && e.preempts >= pb {
 		next = cur
 	} else {
-		// timers are only candidates while something else could also run or nothing else can
 		c := e.chooseN(len(cands), "sched")
 		next = cands[c]
 		if curEnabled && next != cur {
@@ -153,8 +152,13 @@ func (e *Exec) schedule() bool {
 	}
 	e.cur = next
 	if next.pending != nil {
+		switch next.pending.kind {
+		case "start", "go", "commit", "timer":
+			// pseudo operations: nothing to re-execute
+		default:
+			next.granted = true
+		}
 		next.pending = nil
-		next.granted = true
 	}
 	return true
 }
@@ -380,6 +384,9 @@ func (e *Exec) doSend(g *G, ch *ChanObj, v Value) bool {
 
 func (e *Exec) execRecv(g *G, fr *Frame, in *ssa.UnOp, nested bool) {
 	ch := e.get(fr, in.X).(*ChanObj)
+	if c := e.ss.commits[g]; c != nil && c.ch == ch && !c.isSend {
+		g.granted = true // rendezvous already happened: complete it
+	}
 	if !g.granted {
 		vo := &visOp{kind: "recv", desc: "chan receive " + in.X.Name(), enabled: func() bool { return e.recvReady(g, ch) }}
 		e.park(g, vo, []*ChanObj{ch}, nil)
@@ -402,6 +409,9 @@ func (e *Exec) execRecv(g *G, fr *Frame, in *ssa.UnOp, nested bool) {
 func (e *Exec) execSend(g *G, fr *Frame, in *ssa.Send, nested bool) {
 	ch := e.get(fr, in.Chan).(*ChanObj)
 	v := copyVal(e.get(fr, in.X))
+	if c := e.ss.commits[g]; c != nil && c.ch == ch && c.isSend {
+		g.granted = true
+	}
 	if !g.granted {
 		vo := &visOp{kind: "send", desc: "chan send " + in.Chan.Name(), enabled: func() bool { return e.sendReady(g, ch) }}
 		e.park(g, vo, nil, []sendOffer{{ch: ch, val: v, caseIdx: -1}})
@@ -472,6 +482,9 @@ func (e *Exec) execSelect(g *G, fr *Frame, in *ssa.Select, nested bool) {
 			}
 		}
 		return r
+	}
+	if c := e.ss.commits[g]; c != nil {
+		g.granted = true
 	}
 	if !g.granted {
 		vo := &visOp{kind: "select", desc: "select", enabled: func() bool { return !in.Blocking || len(ready()) > 0 }}
@@ -560,6 +573,9 @@ func (e *Exec) visibleCall(g *G, fr *Frame, call *ssa.CallCommon) *visOp {
 			}
 			return true
 		}}
+	case "(*github.com/containerd/ttrpc.Server).Serve":
+		p := e.get(fr, call.Args[0]).(Ptr)
+		return &visOp{kind: "serve", desc: "ttrpc.Server.Serve", enabled: func() bool { return e.serverClosed[p] }}
 	case "(*sync.WaitGroup).Wait":
 		p := e.get(fr, call.Args[0]).(Ptr)
 		return &visOp{kind: "wgwait", desc: "WaitGroup.Wait", enabled: func() bool { return e.ss.wgs[p] == 0 }}
